@@ -115,9 +115,22 @@ class _Graft(ast.NodeTransformer):
         return self.sub if node.id == HOLE else node
 
 
+def _clone(node):
+    """Fresh structural copy of a template AST (what `copy.deepcopy` gives, without its memo
+    bookkeeping: templates are trees, no node is shared)."""
+    if isinstance(node, ast.AST):
+        new = node.__class__.__new__(node.__class__)
+        for k, v in node.__dict__.items():
+            new.__dict__[k] = _clone(v) if isinstance(v, (ast.AST, list)) else v
+        return new
+    if isinstance(node, list):
+        return [_clone(x) for x in node]
+    return node
+
+
 def build(spec):
     """Fresh AST for a tree spec."""
-    node = copy.deepcopy(_template(spec[0]))
+    node = _clone(_template(spec[0]))
     if len(spec) > 1:
         sub = build(spec[1])
         if isinstance(node, ast.Name) and node.id == HOLE:
@@ -480,6 +493,9 @@ def run(tier, seed, build):
                 "(in-process and CLI) and through a followed import; non-trivial = distinct (channel, slot, compound expression)")
     impl.reset_config()
     rng = random.Random(seed)
+    import time as _time
+    _t0 = _time.time()
+    stage_wall = {}
     trees, n_exh, n_rand = all_cases(tier, rng)
     res.extra["exhaustive"] = True
     res.extra["exhaustive_cases"] = n_exh
@@ -491,7 +507,15 @@ def run(tier, seed, build):
 
     model = common.Model()
     enc, nodes_meta = [], []
-    with impl.Tap() as tap:
+    # the namer-level stage observes outcomes (value / SystemExit / exception class) and the tapped
+    # events; the RENDERING of a diagnostic line (`rattr.error.error.__log`: path formatting + print to
+    # stderr, no state) is C15 / C16's subject and is switched off here — it was 1/4 of this stage's time.
+    # Stages S and X run with the real renderer.
+    import sys as _sys
+    from unittest import mock as _mock
+
+    _errmod = _sys.modules["rattr.error.error"]
+    with _mock.patch.dict(_errmod.__dict__, {"__log": lambda *a, **k: None}), impl.Tap() as tap:
         impl_out = []
         for i, spec in enumerate(trees):
             node, im, notes = run_impl(spec, tap, check_fresh=(i % 7 == 0))
@@ -502,7 +526,9 @@ def run(tier, seed, build):
                 tap.printed.clear()
                 tap._stderr.seek(0)
                 tap._stderr.truncate()
+    stage_wall["namers:implementation"] = round(_time.time() - _t0, 1)
     outs = model.batch([("names", {"expr": e}) for e in enc])
+    stage_wall["namers:model"] = round(_time.time() - _t0 - stage_wall["namers:implementation"], 1)
 
     for spec, (node, im, notes), mo in zip(trees, impl_out, outs):
         res.evaluations += 1
@@ -546,7 +572,18 @@ def run(tier, seed, build):
     # ------------------------------------------------------------------ stage S: the consumers of the namers
     from props import c10sites
 
-    c10sites.run_stage(res, tier, rng, model)
+    _t1 = _time.time()
+    stage_wall["namers:judge"] = round(_t1 - _t0 - stage_wall["namers:implementation"] - stage_wall["namers:model"], 1)
+    site_probes = c10sites.run_stage(res, tier, rng, model)
+    _t2 = _time.time()
+    stage_wall["sites"] = round(_t2 - _t1, 1)
+
+    # ------------------------------------------------------------------ stage X: names through a caller (Tie B with the pipeline model)
+    from props import c10callers
+
+    c10callers.run_stage(res, tier, rng, model, site_probes)
+    stage_wall["callers"] = round(_time.time() - _t2, 1)
+    res.extra["stage_wall_s"] = stage_wall          # informational only: no verdict depends on it
 
     missing = sorted(classes - covered)
     if missing:
@@ -580,6 +617,11 @@ def replay(path):
 
         impl.reset_config()
         return c10sites.replay_case(case)
+    if spec is None and case.get("stage") == "callers":
+        from props import c10callers
+
+        impl.reset_config()
+        return c10callers.replay_case(case)
     if spec is None:
         print(json.dumps(j, indent=1))
         return 0
